@@ -260,7 +260,7 @@ class ProxyKmipClient(object):
             return result.uuid
         else:
             reason = result.result_reason.value
-            message = result.result_message.value
+            message = self._get_result_message(result)
             raise exceptions.KmipOperationFailure(status, reason, message)
 
     @is_connected
@@ -386,7 +386,7 @@ class ProxyKmipClient(object):
             return public_uid, private_uid
         else:
             reason = result.result_reason.value
-            message = result.result_message.value
+            message = self._get_result_message(result)
             raise exceptions.KmipOperationFailure(status, reason, message)
 
     @is_connected
@@ -577,7 +577,7 @@ class ProxyKmipClient(object):
             return result.uuid
         else:
             reason = result.result_reason.value
-            message = result.result_message.value
+            message = self._get_result_message(result)
             raise exceptions.KmipOperationFailure(status, reason, message)
 
     @is_connected
@@ -867,7 +867,7 @@ class ProxyKmipClient(object):
             return result.uuids
         else:
             reason = result.result_reason.value
-            message = result.result_message.value
+            message = self._get_result_message(result)
             raise exceptions.KmipOperationFailure(status, reason, message)
 
     @is_connected
@@ -994,7 +994,7 @@ class ProxyKmipClient(object):
             return managed_object
         else:
             reason = result.result_reason.value
-            message = result.result_message.value
+            message = self._get_result_message(result)
             raise exceptions.KmipOperationFailure(status, reason, message)
 
     @is_connected
@@ -1038,7 +1038,7 @@ class ProxyKmipClient(object):
             return result.uuid, result.attributes
         else:
             reason = result.result_reason.value
-            message = result.result_message.value
+            message = self._get_result_message(result)
             raise exceptions.KmipOperationFailure(status, reason, message)
 
     @is_connected
@@ -1068,7 +1068,7 @@ class ProxyKmipClient(object):
             return attribute_names
         else:
             reason = result.result_reason.value
-            message = result.result_message.value
+            message = self._get_result_message(result)
             raise exceptions.KmipOperationFailure(status, reason, message)
 
     @is_connected
@@ -1101,7 +1101,7 @@ class ProxyKmipClient(object):
             return
         else:
             reason = result.result_reason.value
-            message = result.result_message.value
+            message = self._get_result_message(result)
             raise exceptions.KmipOperationFailure(status, reason, message)
 
     @is_connected
@@ -1157,7 +1157,7 @@ class ProxyKmipClient(object):
             return
         else:
             reason = result.result_reason.value
-            message = result.result_message.value
+            message = self._get_result_message(result)
             raise exceptions.KmipOperationFailure(status, reason, message)
 
     @is_connected
@@ -1189,7 +1189,7 @@ class ProxyKmipClient(object):
             return
         else:
             reason = result.result_reason.value
-            message = result.result_message.value
+            message = self._get_result_message(result)
             raise exceptions.KmipOperationFailure(status, reason, message)
 
     @is_connected
@@ -1572,8 +1572,14 @@ class ProxyKmipClient(object):
             return uid, mac_data
         else:
             reason = result.result_reason.value
-            message = result.result_message.value
+            message = self._get_result_message(result)
             raise exceptions.KmipOperationFailure(status, reason, message)
+
+    def _get_result_message(self, result):
+        # The Result Message field is optional in KMIP responses.
+        if result.result_message is None:
+            return None
+        return result.result_message.value
 
     def _build_key_attributes(self, algorithm, length, masks=None):
         # Build a list of core key attributes.
